@@ -9,6 +9,7 @@ pub mod c08;
 pub mod c10;
 pub mod c11;
 pub mod c13;
+pub mod c16;
 pub mod c17;
 pub mod problems;
 pub mod c18;
@@ -49,6 +50,11 @@ pub fn property(id: &str) -> Option<PropertyRun> {
             id: id.into(),
             parts: vec![Box::new(Campaign(c05::C05))],
             assumptions: vec![window_note, "the checker's Kripke evaluator for here-and-there is the trusted base".into()],
+        },
+        "C16" => PropertyRun {
+            id: id.into(),
+            parts: vec![Box::new(Campaign(c16::C16))],
+            assumptions: vec!["in-process stages run on 512 MB stacks under catch_unwind; stack exhaustion can only be observed through the real binary (sampled), nesting is capped at 60 per mutation in the campaign".into(), "a hang is a run of the real binary that exceeds 60 s twice on an input of at most 6 KB".into()],
         },
         "C17" => PropertyRun {
             id: id.into(),
@@ -122,4 +128,4 @@ pub fn property(id: &str) -> Option<PropertyRun> {
     })
 }
 
-pub const ALL: &[&str] = &["C01", "C02", "C03", "C04", "C05", "C06", "C07", "C08", "C09", "C10", "C11", "C12", "C13", "C14", "C15", "C17", "C18", "C19", "C20"];
+pub const ALL: &[&str] = &["C01", "C02", "C03", "C04", "C05", "C06", "C07", "C08", "C09", "C10", "C11", "C12", "C13", "C14", "C15", "C16", "C17", "C18", "C19", "C20"];
